@@ -98,6 +98,59 @@ def _elim_returns(stmts: List[ast.stmt], ret: str) -> Tuple[List[ast.stmt], bool
     return out, False
 
 
+def _is_test_like(e) -> bool:
+    """an expression whose value is a bool: comparisons, `not`, and / or of such"""
+    if isinstance(e, ast.Compare):
+        return True
+    if isinstance(e, ast.UnaryOp) and isinstance(e.op, ast.Not):
+        return True
+    if isinstance(e, ast.BoolOp):
+        return all(_is_test_like(v) for v in e.values)
+    if isinstance(e, ast.Constant) and isinstance(e.value, bool):
+        return True
+    if isinstance(e, ast.Call) and isinstance(e.func, ast.Name) and e.func.id in ("isinstance", "callable", "hasattr", "bool", "all", "any"):
+        return True
+    return False
+
+
+def _negate(e):
+    flip = {ast.Is: ast.IsNot, ast.IsNot: ast.Is, ast.Eq: ast.NotEq, ast.NotEq: ast.Eq, ast.In: ast.NotIn, ast.NotIn: ast.In}
+    if isinstance(e, ast.Compare) and len(e.ops) == 1 and type(e.ops[0]) in flip and isinstance(e.ops[0], (ast.Is, ast.IsNot, ast.In, ast.NotIn)):
+        return ast.Compare(left=e.left, ops=[flip[type(e.ops[0])]()], comparators=e.comparators)
+    if isinstance(e, ast.UnaryOp) and isinstance(e.op, ast.Not) and _is_test_like(e.operand):
+        return e.operand
+    return ast.UnaryOp(op=ast.Not(), operand=e)
+
+
+def _predicate_expr(stmts: List[ast.stmt]):
+    """the single boolean expression a side-effect-free deciding helper computes, or None:
+    `if c: return A` ... `return B`  with tests c that are comparisons; A / B boolean constants or test-like expressions.
+    Evaluation order and short-circuiting are those of the statements."""
+    if not stmts:
+        return None
+    st, rest = stmts[0], stmts[1:]
+    if isinstance(st, ast.Return) and not rest and st.value is not None and _is_test_like(st.value):
+        return st.value
+    if isinstance(st, ast.If) and _is_test_like(st.test) and not any(isinstance(x, ast.NamedExpr) for x in ast.walk(st.test)):
+        a = _predicate_expr(st.body)
+        if a is None:
+            return None
+        b = _predicate_expr(list(st.orelse) + list(rest)) if not (st.orelse and rest) else None
+        if b is None:
+            return None
+        c = st.test
+        if isinstance(a, ast.Constant) and a.value is False:
+            return ast.BoolOp(op=ast.And(), values=[_negate(c), b])
+        if isinstance(a, ast.Constant) and a.value is True:
+            return ast.BoolOp(op=ast.Or(), values=[c, b])
+        if isinstance(b, ast.Constant) and b.value is False:
+            return ast.BoolOp(op=ast.And(), values=[c, a])
+        if isinstance(b, ast.Constant) and b.value is True:
+            return ast.BoolOp(op=ast.Or(), values=[_negate(c), a])
+        return ast.IfExp(test=c, body=a, orelse=b)
+    return None
+
+
 def _definitely_returns(stmts) -> bool:
     """every path through the statement list ends in return / raise"""
     for st in stmts:
@@ -420,6 +473,11 @@ class _Inliner:
                         if getattr(x, "end_col_offset", None) is not None:
                             x.end_col_offset += 1000 * k
             return stmts, None
+        pe = _predicate_expr(body)
+        if pe is not None:
+            # a helper that only decides something (`if c: return False` ... `return e`): one boolean expression in the view
+            rn = _Renamer(mapping, prefix, locals_, lambdas, (h.vararg, extra_exprs))
+            return pre, ast.copy_location(ast.fix_missing_locations(rn.visit(pe)), call)
         ret = "ret"
         locals_.add(ret)
         has_ret = _contains_return(body)
